@@ -143,6 +143,14 @@ Section JoinTheorems.
              (fun _ => true) j_Q J1 J2 J3 J4 J5 J6 J7 J8 J9 J10 J11 J12 J13 J14 J15 J16 J17 (fun _ => eq_refl) (fun _ _ _ => eq_refl) (fun _ H => H)
              jmut jmut_inv). apply join_init.
   Qed.
+  Theorem join_C01_quiescent tryj scs ops i : let w := join_run tryj scs ops in
+    g_retpend _ w = true -> g_quiet _ w = true -> g_out _ w = false -> i < N _ j_slots w -> aw _ j_awaited w i = true ->
+    polled _ w i = true /\ fired _ w i = false.
+  Proof.
+    apply (C01_quiescent jst j_slots j_awaited (fun _ i => i) j_handle tuple tuple j_order (fun _ => None) j_pre_any j_finish (fun s => s) j_drop
+             (fun _ => true) j_Q J1 J2 J3 J4 J5 J6 J7 J8 J9 J10 J11 J12 J13 J14 J15 J16 J17 (fun _ => eq_refl) (fun _ _ _ => eq_refl) (fun _ H => H)
+             jmut jmut_inv). apply join_init.
+  Qed.
   Theorem join_C16 tryj scs ops : g_bad16 _ (join_run tryj scs ops) = false.
   Proof.
     apply (C16_generic jst j_slots j_awaited (fun _ i => i) j_handle tuple tuple j_order (fun _ => None) j_pre_any j_finish (fun s => s) j_drop
